@@ -46,6 +46,7 @@ fn main() {
             budget: if o.thorough() { 30 } else { 22 },
             max_depth: if o.thorough() { 3 + (k % 4) as u32 } else { 2 + (k % 3) as u32 },
             errors: false,
+            sig: false,
             defined: vec![],
         };
         let lines = g.script();
